@@ -35,6 +35,7 @@ import (
 	kit "github.com/openbao/openbao/sdk/v2/helper/verifkit"
 	shamirpkg "github.com/openbao/openbao/sdk/v2/helper/shamir"
 	"github.com/openbao/openbao/sdk/v2/logical"
+	"github.com/openbao/openbao/sdk/v2/physical"
 	"github.com/openbao/openbao/v2/internal/builtin/credential/approle"
 	"github.com/openbao/openbao/v2/internal/builtin/credential/userpass"
 	"github.com/openbao/openbao/v2/internal/builtin/logical/kv"
@@ -43,6 +44,7 @@ import (
 	"github.com/openbao/openbao/v2/internal/helper/namespace"
 	"github.com/openbao/openbao/v2/internal/helper/pgpkeys"
 	"github.com/openbao/openbao/v2/internal/vault/barrier"
+	vaultseal "github.com/openbao/openbao/v2/internal/vault/seal"
 )
 
 // ---------------------------------------------------------------- independent record opener
@@ -659,12 +661,16 @@ func (w *c01W) run(shamir bool, generic int) {
 		w.updNS("sealed-namespace", "c01ns2/", "kv/item3", map[string]any{"v": w.c("ns2.kv.value.after-unseal")})
 	}
 
+	// ---- raw storage endpoint (enabled on this core)
+	w.rawFamily("term1")
+
 	// ---- key rotation, then a generic phase so that plenty of records are written under the new term
 	w.upd("rotate", "sys/rotate", nil)
 	w.generic(generic/2, entID)
 	w.upd("rotate", "sys/rotate/root", nil)
 	w.upd("rotate", "sys/rotate/keyring", nil)
 	w.generic(generic-generic/2, entID)
+	w.rawFamily("after-rotation")
 
 	// ---- mount moves and removals
 	w.upd("remount", "sys/remount", map[string]any{"from": "c01rec/", "to": "c01recmoved/"})
@@ -803,6 +809,87 @@ func (w *c01W) rekeyLegacy(recovery bool, shares [][]byte, pubs []string) {
 		w.t.Logf("verif: legacy rekey backup delete: %v", err)
 	}
 	w.sample()
+}
+
+// c01RawLookalikes: storage keys that share a prefix with an entry of the pinned bypass table (or with another
+// bootstrap / meta record) without being that record. Written through sys/raw they are ordinary barrier records.
+var c01RawLookalikes = []string{
+	"core/seal-config-backup", "core/seal-config.bak", "core/seal-config/previous", "core/seal-config2",
+	"core/recovery-config.bak", "core/recovery-config/previous", "core/recovery-config-backup",
+	"core/hsm/barrier-unseal-keys2", "core/hsm/barrier-unseal-keys/old", "core/hsm/other",
+	"core/recovery-key-old", "core/recovery-key/1",
+	"core/unseal-keys-backup/x", "core/unseal-keys-backup2", "core/recovery-keys-backup.old", "core/recovery-keys-backup/x",
+	"core/lock2", "core/lock/x", "core/root-key2", "core/shamir-kek.bak", "core/upgrade/x",
+	"sys/uiconfig_plaintext2", "sys/uiconfig_plaintext/x", "sys/ui/config_plaintext", "sys/uiconfig2",
+}
+
+var c01RawOrdinary = []string{"logical/c01raw/item", "sys/policy/c01raw", "core/c01raw", "auth/c01raw/user/x", "c01raw-top"}
+
+// rawFamily drives the raw storage endpoint: writes / reads / lists / deletes with canary values to ordinary keys
+// and to look-alikes of every bootstrap record, in the root namespace and under the storage prefix of the child
+// namespaces, plus read-only access to the exact bootstrap paths.
+func (w *c01W) rawFamily(phase string) {
+	v := w.v
+	prefixes := []string{""}
+	ctx := namespace.RootContext(context.Background())
+	for _, nsp := range []string{"c01ns1/", "c01ns2/"} {
+		if ns, err := v.Core.namespaceStore.GetNamespaceByPath(ctx, nsp); err == nil && ns != nil && ns.UUID != "" {
+			prefixes = append(prefixes, barrier.NamespacePrefix+ns.UUID+"/")
+		}
+	}
+	n := 0
+	for pi, pre := range prefixes {
+		keys := append(append([]string(nil), c01RawOrdinary...), c01RawLookalikes...)
+		for ki, k := range keys {
+			n++
+			full := pre + k
+			where := fmt.Sprintf("raw.%s.%d.%s", phase, pi, k)
+			data := map[string]any{"value": fmt.Sprintf(`{"operator_note":"%s","n":%d}`, w.c(where), n)}
+			switch (ki + pi) % 4 {
+			case 1:
+				data["compression_type"] = "gzip"
+			case 2:
+				data = map[string]any{"value": base64.StdEncoding.EncodeToString([]byte("bin\x00\x01" + w.c(where+".b64"))), "encoding": "base64"}
+			}
+			failedBefore := w.r.Get("requests_failed")
+			w.upd("raw", "sys/raw/"+full, data)
+			if w.r.Get("requests_failed") == failedBefore {
+				w.r.Count("raw_writes", 1)
+				if ki >= len(c01RawOrdinary) {
+					w.r.Count("raw_writes_lookalike", 1)
+				}
+				if pi > 0 {
+					w.r.Count("raw_writes_under_namespace_prefix", 1)
+				}
+			}
+			// overwrite (update path with the existence check true), read back, and delete every third one
+			if ki%5 == 0 {
+				w.upd("raw", "sys/raw/"+full, map[string]any{"value": w.c(where + ".overwrite")})
+			}
+			if resp := w.read("raw", "sys/raw/"+full); resp != nil {
+				w.r.Count("raw_reads", 1)
+			}
+			if ki%3 == 2 {
+				w.do("raw", vReq{Op: logical.DeleteOperation, Path: "sys/raw/" + full})
+				w.r.Count("raw_deletes", 1)
+			}
+		}
+		for _, dir := range []string{"core/", "core/hsm/", "sys/", "core/seal-config/"} {
+			if resp := w.do("raw", vReq{Op: logical.ListOperation, Path: "sys/raw/" + pre + dir}); resp != nil {
+				w.r.Count("raw_lists", 1)
+			}
+		}
+		// the exact bootstrap paths, read-only (a refusal or a decryption error is as good as a value here)
+		for _, k := range []string{"core/seal-config", "core/recovery-config", "core/hsm/barrier-unseal-keys", "core/recovery-key", "core/keyring", "core/root-key", "core/shamir-kek", "sys/uiconfig_plaintext"} {
+			resp, err := v.Do(vReq{Tag: "raw-bootstrap-read", Op: logical.ReadOperation, Path: "sys/raw/" + pre + k, Token: v.Root})
+			w.r.Eval(1)
+			w.r.Count("raw_bootstrap_reads", 1)
+			if vOK(resp, err) {
+				w.r.Count("raw_bootstrap_reads_ok", 1)
+			}
+		}
+		w.sample()
+	}
 }
 
 func (w *c01W) unsealNS(ns string) {
@@ -1208,12 +1295,63 @@ func c01KeyClass(k string) string {
 	return strings.Join(parts, "/")
 }
 
+// c01Boot boots a core the way the shared vBoot does, but with the raw storage endpoint enabled
+// (CoreConfig.EnableRaw; vOpts has no field for it). The returned vCore works with the shared helpers.
+func c01Boot(t *testing.T, phys physical.Backend, probe *kit.Probe, shamir bool, lf, cf map[string]logical.Factory) *vCore {
+	t.Helper()
+	v := &vCore{t: t, Phys: phys, Probe: probe, Opts: vOpts{Phys: phys, ShamirSeal: shamir, Logical: lf, Credential: cf}}
+	logger := vLogger()
+	conf := testCoreConfig(&vT{t}, phys, logger)
+	conf.DisableCache = true
+	conf.EnableRaw = true
+	conf.NumExpirationWorkers = numExpirationWorkersTest
+	v.Rec = newVRec()
+	conf.LogicalBackends["verifrec"] = v.Rec.Factory(logical.TypeLogical)
+	conf.CredentialBackends["verifrec"] = v.Rec.Factory(logical.TypeCredential)
+	for k, f := range lf {
+		conf.LogicalBackends[k] = f
+	}
+	for k, f := range cf {
+		conf.CredentialBackends[k] = f
+	}
+	if shamir {
+		conf.Seal = nil
+	} else {
+		v.Access, _ = vaultseal.NewTestSeal(&vaultseal.TestSealOpts{Logger: logger})
+		s, err := NewAutoSeal(v.Access)
+		if err != nil {
+			t.Fatalf("verif: auto seal: %v", err)
+		}
+		conf.Seal = s
+	}
+	core, err := NewCore(conf)
+	if err != nil {
+		t.Fatalf("verif: new core: %v", err)
+	}
+	v.Core = core
+	v.Keys, v.Root = TestCoreInit(&vT{t}, core)
+	if shamir {
+		for _, k := range v.Keys {
+			if _, err := TestCoreUnseal(core, TestKeyCopy(k)); err != nil {
+				t.Fatalf("verif: unseal: %v", err)
+			}
+		}
+	} else if err := core.UnsealWithStoredKeys(namespace.RootContext(context.Background())); err != nil {
+		t.Fatalf("verif: unseal with stored keys: %v", err)
+	}
+	if core.Sealed() {
+		t.Fatalf("verif: core still sealed after unseal")
+	}
+	t.Cleanup(v.Close)
+	return v
+}
+
 // ---------------------------------------------------------------- test
 
 func TestVerif_C01_CanaryScan(t *testing.T) {
 	seed := kit.Seed(1)
 	shard, shards := kit.Shard()
-	r := kit.NewResult(t, "c01-canary-scan", seed, "a full core on a journaling probe store (transactional / plain; auto seal / Shamir seal) runs an API workload (kv v1 leased + kv v2 data/metadata/versions, policies incl. password policies, tokens + roles + batch/orphan/child tokens, cubbyhole, response wrapping, userpass, approle, recording auth/secret backends, identity entities/aliases/groups/OIDC/MFA-TOTP, transit with exported keys, PKI with exported root key, CORS / audited headers / quotas / UI headers, a plain and a separately sealed namespace incl. seal+unseal, keyring rotation x2, root-key rotation, remount/unmount, restart, and with the Shamir seal a rekey with PGP backup) in which every value position carries a unique canary, plus a seeded phase of random-shaped writes; then every physical put ever made (journal) and the final store are (a) searched for every canary and every server-issued/held secret in raw, hex and base64 (3 alignments) form, (b) opened with crypto/aes+cipher.NewGCM: format 2, keyring owning the key prefix, bound to the storage key, term active at write time - anything else must be a pinned bootstrap record by key pattern and writer function. A record is non-trivial when it opened as barrier ciphertext; distinct = (key shape, keyring, term)")
+	r := kit.NewResult(t, "c01-canary-scan", seed, "a full core on a journaling probe store (transactional / plain; auto seal / Shamir seal) runs an API workload (kv v1 leased + kv v2 data/metadata/versions, policies incl. password policies, tokens + roles + batch/orphan/child tokens, cubbyhole, response wrapping, userpass, approle, recording auth/secret backends, identity entities/aliases/groups/OIDC/MFA-TOTP, transit with exported keys, PKI with exported root key, CORS / audited headers / quotas / UI headers, the raw storage endpoint (sys/raw writes/reads/lists/deletes, plain / gzip / base64, to ordinary keys and to look-alikes of every bootstrap record, in the root and under both child-namespace storage prefixes, plus read-only access to the exact bootstrap paths), a plain and a separately sealed namespace incl. seal+unseal, keyring rotation x2, root-key rotation, remount/unmount, restart, and with the Shamir seal a rekey with PGP backup) in which every value position carries a unique canary, plus a seeded phase of random-shaped writes; then every physical put ever made (journal) and the final store are (a) searched for every canary and every server-issued/held secret in raw, hex and base64 (3 alignments) form, (b) opened with crypto/aes+cipher.NewGCM: format 2, keyring owning the key prefix, bound to the storage key, term active at write time - anything else must be a pinned bootstrap record by key pattern and writer function. A record is non-trivial when it opened as barrier ciphertext; distinct = (key shape, keyring, term)")
 	defer r.Write(t)
 	type variant struct {
 		tx, shamir bool
@@ -1236,12 +1374,9 @@ func TestVerif_C01_CanaryScan(t *testing.T) {
 		phys, probe := kit.NewInmemProbe(vr.tx)
 		probe.StartJournal()
 		probe.StartLog(true)
-		v := vBoot(t, vOpts{Phys: phys, ShamirSeal: vr.shamir,
-			Logical:    map[string]logical.Factory{"kv": kv.Factory, "kv-v2": kv.VersionedKVFactory, "transit": transit.Factory, "pki": pki.Factory},
-			Credential: map[string]logical.Factory{"userpass": userpass.Factory, "approle": approle.Factory}})
-		if v.Probe == nil {
-			v.Probe = probe
-		}
+		v := c01Boot(t, phys, probe, vr.shamir,
+			map[string]logical.Factory{"kv": kv.Factory, "kv-v2": kv.VersionedKVFactory, "transit": transit.Factory, "pki": pki.Factory},
+			map[string]logical.Factory{"userpass": userpass.Factory, "approle": approle.Factory})
 		w := &c01W{t: t, v: v, r: r, rng: rng, cz: c01NewCanaries(rng), caseID: caseID,
 			root: &c01KR{Name: "root", Keys: map[uint32][]byte{}}, nsKR: map[string]*c01KR{}, nsUUID: map[string]string{}, shares: map[string][]string{}}
 		w.samples = []c01Sample{{Seq: 0, Terms: map[string]uint32{"": 1}}}
@@ -1273,6 +1408,11 @@ func TestVerif_C01_CanaryScan(t *testing.T) {
 	for _, fam := range []string{"kv1", "kv2", "policy", "token", "cubbyhole", "wrapping", "userpass", "approle", "identity", "oidc", "transit", "pki", "namespace", "sealed-namespace", "rotate", "ui-headers", "sysconfig"} {
 		r.Require("family_ok:"+fam, 1)
 	}
+	r.Require("family_ok:raw", 100*per)
+	r.Require("raw_writes_lookalike", 100*per)
+	r.Require("raw_writes_under_namespace_prefix", 50*per)
+	r.Require("raw_reads", 100*per)
+	r.Require("raw_lists", 4*per)
 	r.Require("transit_keys_exported", 2)
 	r.Require("pki_private_keys_exported", 1)
 	r.Require("sealed_namespaces", 1)
